@@ -159,7 +159,7 @@ fn simplify_expr(e: &BodyExpr) -> Vec<BodyExpr> {
     let mut out = vec![];
     match e {
         BodyExpr::Outer(_) | BodyExpr::Const(_) => {}
-        BodyExpr::NewVar { .. } | BodyExpr::Memo { .. } => {
+        BodyExpr::NewVar { .. } | BodyExpr::Memo { .. } | BodyExpr::LocalMemo { .. } => {
             out.push(BodyExpr::Const(0));
         }
         BodyExpr::Map(inner, f) => {
